@@ -654,7 +654,10 @@ def side_never_completes(cfg, tid, label):
     if not succ:
         return False
     r = set(succ) | cfg.reach(succ, exc=False)
-    return cfg.exit not in r
+    if cfg.exit not in r:
+        return True
+    # the refusal may be collected first and raised at the end (`complaint = '...'` ... `if complaint: raise ...`)
+    return cfg.exit not in reach_with_flags(cfg, succ)
 
 
 def can_end_without_value(cfg, funcnode, good=None, explicit_none_ok=False):
@@ -753,6 +756,20 @@ def eval_under(test, env, funcnode=None):
         if v is None:
             return None
         return v if isinstance(test.ops[0], ast.Is) else (not v)
+    if isinstance(test, ast.Call) and isinstance(test.func, ast.Name) and test.func.id == 'bool' and len(test.args) == 1 and not test.keywords:
+        return eval_under(test.args[0], env)
+    if isinstance(test, ast.Compare) and len(test.ops) == 1 and isinstance(test.ops[0], (ast.Eq, ast.NotEq, ast.Is, ast.IsNot)):
+        # two conditions compared with each other: `bool(argtype) == missing`
+        def boolean(e):
+            return isinstance(e, (ast.Compare, ast.BoolOp)) or (isinstance(e, ast.UnaryOp) and isinstance(e.op, ast.Not)) or \
+                (isinstance(e, ast.Call) and isinstance(e.func, ast.Name) and e.func.id == 'bool') or (isinstance(e, ast.Constant) and isinstance(e.value, bool))
+        l, r = test.left, test.comparators[0]
+        if boolean(l) and boolean(r):
+            lv = l.value if isinstance(l, ast.Constant) else eval_under(l, env)
+            rv = r.value if isinstance(r, ast.Constant) else eval_under(r, env)
+            if lv is not None and rv is not None:
+                same = lv == rv
+                return same if isinstance(test.ops[0], (ast.Eq, ast.Is)) else not same
     return env.get(src(test))
 
 
@@ -775,13 +792,26 @@ def reach_under(cfg, funcnode, env, exc=True, avoid=()):
     return seen
 
 
-def reach_with_flags(cfg, start_ids, avoid=(), exc=False):
+def _literal_truth(v):
+    """truth value of a literal: constants, f-strings with a non-empty constant part, non-empty displays; None when unknown"""
+    if isinstance(v, ast.Constant):
+        return bool(v.value)
+    if isinstance(v, ast.JoinedStr):
+        return True if any(isinstance(p, ast.Constant) and p.value for p in v.values) else None
+    if isinstance(v, (ast.Tuple, ast.List, ast.Set)):
+        return bool(v.elts) if not any(isinstance(e, ast.Starred) for e in v.elts) else None
+    if isinstance(v, ast.Dict):
+        return bool(v.keys) if all(k is not None for k in v.keys) else None
+    return None
+
+
+def reach_with_flags(cfg, start_ids, avoid=(), exc=False, env=None):
     """nodes reachable from start_ids (not entering `avoid`) when locals that are bound to a constant on the way (`ok = False`)
     are remembered and the tests they decide (`if not ok:`) are followed on the decided side only - the result flag idiom of a
     helper that reports success, read path sensitively"""
     avoid = set(avoid)
     seen, out = set(), set()
-    stack = [(n, frozenset()) for n in start_ids]
+    stack = [(n, frozenset((env or {}).items())) for n in start_ids]
     while stack:
         n, env = stack.pop()
         if (n, env) in seen or n in avoid:
@@ -799,8 +829,15 @@ def reach_with_flags(cfg, start_ids, avoid=(), exc=False):
                 for x in ast.walk(tg):
                     if isinstance(x, ast.Name):
                         envd.pop(x.id, None)
-            if len(a.targets) == 1 and isinstance(a.targets[0], ast.Name) and isinstance(a.value, ast.Constant):
-                envd[a.targets[0].id] = bool(a.value.value)
+            for tg in a.targets:
+                for x in ast.walk(tg):
+                    if isinstance(x, ast.Name):
+                        envd.pop(f'{x.id} is None', None)
+            if len(a.targets) == 1 and isinstance(a.targets[0], ast.Name):
+                tv = _literal_truth(a.value)
+                if tv is not None:
+                    envd[a.targets[0].id] = tv
+                    envd[f'{a.targets[0].id} is None'] = isinstance(a.value, ast.Constant) and a.value.value is None
         elif isinstance(a, (ast.AugAssign, ast.For, ast.AsyncFor, ast.With)):
             for x in ast.walk(a.target if hasattr(a, 'target') else a):
                 if isinstance(x, ast.Name) and isinstance(x.ctx, ast.Store):
